@@ -899,6 +899,87 @@ func GenericHostile(c *corr.Ctx, s *Spec, name string, long bool) {
 	HostileStream(c, s, inst, pkts, !long, name, fmt.Sprintf("generic hostile mode %d", mode))
 }
 
+// CapBoundary builds, from the real encoder's packets of a multi-packet frame, fragmented frames
+// whose accumulated size stays below the documented maximum until the LAST fragment and crosses it
+// exactly there (middle fragments and the last one are padded to large payloads, so a few dozen
+// packets reach the cap and the crossing point does not depend on per-packet header sizes).  The
+// C08 clause "no returned frame exceeds the maximum" is then evaluated by HostileStream.  Found
+// necessary by a seeded change that moved a size increment behind its limit test.
+func CapBoundary(c *corr.Ctx, s *Spec, name string) {
+	if s.MaxFrameBytes <= 0 {
+		return
+	}
+	rg := c.Rng
+	p := pickParams(rg, s)
+	if p.Max < 16 {
+		p.Max = 16 + rg.IntN(40)
+	}
+	inst, err := s.New(rg, p)
+	if err != nil || inst.Enc == nil {
+		return
+	}
+	var pk []*rtp.Packet
+	for try := 0; try < 60 && len(pk) < 3; try++ {
+		func() {
+			defer func() { recover() }()
+			ps, err := inst.Enc.Encode(inst.GenFrame(rg))
+			if err == nil && len(ps) >= 3 {
+				pk = ps
+			}
+		}()
+	}
+	if len(pk) < 3 {
+		c.Dist(s.Name + ".capboundary-skipped")
+		return
+	}
+	const big = 60000
+	pad := func(q *rtp.Packet, n int) *rtp.Packet {
+		r := q.Clone()
+		if n > len(r.Payload) {
+			b := make([]byte, n)
+			copy(b, r.Payload)
+			for k := len(r.Payload); k < n; k++ {
+				b[k] = byte(k*7 + 1)
+			}
+			r.Payload = b
+		}
+		return r
+	}
+	first, mid, last := pk[0], pk[1], pk[len(pk)-1]
+	for _, slack := range []int{20000, 1000, 59000} {
+		target := s.MaxFrameBytes - slack - len(first.Payload) // bytes to put into the middle fragments
+		if target < big {
+			continue
+		}
+		var stream []*rtp.Packet
+		seq := first.SequenceNumber
+		add := func(q *rtp.Packet) {
+			q.SequenceNumber = seq
+			q.Timestamp = first.Timestamp
+			seq++
+			stream = append(stream, q)
+		}
+		f := first.Clone()
+		f.Marker = false
+		add(f)
+		for target > 0 {
+			n := big
+			if target < big {
+				n = target
+			}
+			q := pad(mid, n)
+			q.Marker = false
+			add(q)
+			target -= n
+		}
+		l := pad(last, big)
+		add(l)
+		HostileStream(c, s, inst, stream, false, fmt.Sprintf("%s-slack%d", name, slack),
+			fmt.Sprintf("cap boundary: %d packets, accumulated size crosses the maximum %d at the last fragment (slack %d)", len(stream), s.MaxFrameBytes, slack))
+	}
+	c.Dist(s.Name + ".capboundary")
+}
+
 // RunAll is the standard schedule for one codec: round trips (random + boundary sweep), fault
 // streams, hostile streams.  Budgets are per codec.
 func RunAll(c *corr.Ctx, s *Spec) {
@@ -931,6 +1012,9 @@ func RunAll(c *corr.Ctx, s *Spec) {
 		}
 		for i := 0; i < nLong; i++ {
 			GenericHostile(c, s, fmt.Sprintf("%s-grow-%d", s.Name, i), true)
+		}
+		for i := 0; i < c.N(2, 12); i++ {
+			CapBoundary(c, s, fmt.Sprintf("%s-cap-%d", s.Name, i))
 		}
 	}
 }
